@@ -17,7 +17,7 @@ FILES = {
     'libs/core/src/sign_type.rs': 'C19',
     'src/sign.rs': 'C09-C10-C11-C08',
     'libs/testing/src/virtual_sign_bus.rs': 'C13-C12-C14-C08',
-    'libs/serial/src/serial_sign_bus.rs': 'C16-C18',
+    'libs/serial/src/serial_sign_bus.rs': 'C16-C18-C20',
     'libs/serial/src/serial_port.rs': 'C20',
     'libs/testing/src/odk.rs': 'C17-C20',
 }
